@@ -16,7 +16,7 @@ package replay
 //@   mode int
 //@   requires c != nil ==> c.current != nil && c.previous != nil && c.current != c.previous && c.capacity >= 0 && c.expireInterval > 0
 //@   requires c != nil ==> 0 <= unixnano(c.expireTime) && unixnano(c.expireTime) < 4611686018427387904 && ghost(now) >= 0
-//@   modifies c.current, c.previous, c.expireTime, c.current[..]
+//@   modifies c.current, c.previous, c.expireTime, c.current[..], ghost(shown)
 //@   // disabled cache
 //@   ensures (c == nil || c.capacity == 0) ==> !r
 //@   // never reports never-seen traffic as a replay
@@ -36,6 +36,9 @@ package replay
 //@   // only new distinct entries consume capacity
 //@   ensures c != nil && c.capacity != 0 && c.previous == old(c.previous) ==> len(c.current) == old(len(c.current)) + ite(old(has(c.current, sigOf(data)) || has(c.previous, sigOf(data))), 0, 1)
 //@   ensures c != nil && c.capacity != 0 && c.previous != old(c.previous) ==> len(c.current) <= 1
+//@   // the event "this input was shown to the cache" (used by the receive paths: C06)
+//@   sets ghost(shown) = 1
+//@   ensures ghost(shown) == 1
 //@
 //@ // Only construction, IsDuplicate and Clear touch the two generations (C06).
 //@ struct writers ReplayCache.current = {NewCache, ReplayCache.Clear, ReplayCache.IsDuplicate}
